@@ -11,7 +11,8 @@ from harness.core import Outcome
 ID = "C13"
 LEAN_TARGETS = ["BeyondVerif.Props.C13", "BeyondVerif.Props.C13Parts", "BeyondVerif.Props.C13Opm", "BeyondVerif.Props.C13Omm",
                 "BeyondVerif.Props.C13Groups", "BeyondVerif.Props.C13Ext", "BeyondVerif.Props.C13Wf", "BeyondVerif.Props.C13Oem", "BeyondVerif.Props.C13Tdm",
-                "BeyondVerif.Props.C13KvnDict", "BeyondVerif.Props.C13Kvn", "BeyondVerif.Witness.C13", "BeyondVerif.Witness.C13Ext"]
+                "BeyondVerif.Props.C13KvnDict", "BeyondVerif.Props.C13Kvn", "BeyondVerif.Props.C13KvnOem", "BeyondVerif.Props.C13KvnTdm",
+                "BeyondVerif.Props.C13Agree", "BeyondVerif.Witness.C13", "BeyondVerif.Witness.C13Ext"]
 THEOREMS = [
     "BeyondVerif.C13.recurseKids_group",
     "BeyondVerif.C13.iterGroup_promote",
@@ -51,6 +52,16 @@ THEOREMS = [
     "BeyondVerif.C13.omm_kvn_load_dump_id",
     "BeyondVerif.C13.opm_kvn_xml_agree",
     "BeyondVerif.C13.omm_kvn_xml_agree",
+    "BeyondVerif.C13.oem_kvn_load_dump_id",
+    "BeyondVerif.C13.tdm_kvn_load_dump_id",
+    "BeyondVerif.C13.oem_kvn_xml_agree",
+    "BeyondVerif.C13.tdm_kvn_xml_agree",
+    "BeyondVerif.C13.opm_redump_total",
+    "BeyondVerif.C13.omm_kvn_needs_no_tle",
+    "BeyondVerif.C13.omm_redump_total",
+    "BeyondVerif.C13.oem_redump_total",
+    "BeyondVerif.C13.tdm_kvn_single_path",
+    "BeyondVerif.C13.tdm_redump_total_partial",
     "BeyondVerif.C13.stamp_roundtrip_same_scale",
     "BeyondVerif.C13.stamp_instant_of_converting",
     "BeyondVerif.C13.stamp_instant_roundtrip_partial",
